@@ -37,6 +37,8 @@ def norm(term):
     """Real symbolic term -> spec shape (hyper-parameters dropped, labels are group numbers, out index 1-based)."""
     if isinstance(term, (bytes, bytearray)):
         term = json.loads(term.decode()) if term else symbolic.NIL
+    if isinstance(term, dict) and 'whole' in term:  # whole-object state (symbolic.Whole): the model term inside
+        term = term['whole']
     if isinstance(term, (tuple, list)):  # multi-output actor: every element wraps the same application
         inner = {symbolic.canon(t['args'][0]) for t in term}
         assert len(inner) == 1 and all(t['tag'] == 'out' for t in term), term
